@@ -145,6 +145,16 @@ def rule_spd_floor(repo, rep):
                 'found')
     return
   for n in cands:
+    hyp = [a for c_ in ast.walk(n.value) if isinstance(c_, ast.Call) and
+           'maximum' in ast.unparse(c_.func) for a in c_.args
+           if isinstance(a, ast.Attribute) and isinstance(a.value, ast.Name)
+           and a.value.id == 'self']
+    if hyp:
+      rep.refuted(R, 'lsml._BaseLSML._fit', site(f, n), 'the eigenvalue '
+                  'floor is %s, not a fixed small constant: the set of '
+                  'candidate metrics then moves with that setting and the '
+                  'iterates stall on its boundary' % ast.unparse(hyp[0]))
+      continue
     Poly.ORTHO.clear()
     dom = AlgDomain()
     eng = Engine(repo, dom)
@@ -339,6 +349,31 @@ def rule_formulas(repo, rep):
     for t, a in zip(loop[0].target.elts, loop[0].iter.args):
       if ast.unparse(a) == 'self.w_[violations]':
         wname = ast.unparse(t)
+    # all zipped sequences are restricted by the same mask: the k-th element
+    # of each belongs to the same constraint
+    if isinstance(loop[0].iter.func, ast.Name) and \
+            loop[0].iter.func.id == 'zip':
+      frames = {}
+      for a in loop[0].iter.args:
+        fr = ast.unparse(a.slice) if isinstance(a, ast.Subscript) else None
+        frames.setdefault(fr, []).append(ast.unparse(a))
+      if len(frames) > 1:
+        odd = min(frames.items(), key=lambda kv: len(kv[1]))
+        rep.refuted(R, 'lsml._BaseLSML._gradient:alignment',
+                    site(fg, loop[0]), '%s is iterated %s while the other '
+                    'sequences of the zip are restricted by [%s]: the k-th '
+                    'violated constraint is paired with the k-th element of '
+                    'another selection' % (
+                        ', '.join(odd[1]), 'unrestricted' if odd[0] is None
+                        else 'restricted by [%s]' % odd[0],
+                        [k for k in frames if k != odd[0]][0]))
+        if wname is None:
+          for t, a in zip(loop[0].target.elts, loop[0].iter.args):
+            if ast.unparse(a).startswith('self.w_'):
+              wname = ast.unparse(t)
+      else:
+        rep.derived(R, 'lsml._BaseLSML._gradient:alignment',
+                    site(fg, loop[0]))
   scal = {wname: 'w'} if wname else {}
   g = eval_expr(upd[0].value, scal, atoms, env)
   w_ = Rat.sym('w')
